@@ -195,3 +195,184 @@ pub fn run_mut()
 		);
 	}
 }
+
+// ---- syntax-eval: the syntax pass on a function body given in a small wire format -------------------------
+//   stmt := D | A | M | L | G | T | P | I(stmt) | I(stmt;stmt) | B(stmt,stmt,...) | B()
+//   (Declaration, Assignment, MethodCall, Loop, Goto, label (T), poisoned, if/else, block)
+
+struct SP<'a>
+{
+	s: &'a [u8],
+	i: usize,
+}
+
+impl<'a> SP<'a>
+{
+	fn stmt(&mut self) -> Statement
+	{
+		let c = self.s[self.i];
+		self.i += 1;
+		match c
+		{
+			b'D' => Statement::Declaration {
+				name: id(1),
+				value: None,
+				value_type: None,
+				location: loc(),
+			},
+			b'A' => Statement::Assignment {
+				reference: Reference {
+					base: Ok(id(2)),
+					steps: Vec::new(),
+					address_depth: 0,
+					location: loc(),
+					location_of_unaddressed: loc(),
+				},
+				value: Expression::BooleanLiteral {
+					value: true,
+					location: loc(),
+				},
+				location: loc(),
+			},
+			b'M' => Statement::MethodCall {
+				name: id(3),
+				builtin: None,
+				arguments: Vec::new(),
+			},
+			b'L' => Statement::Loop { location: loc() },
+			b'G' => Statement::Goto {
+				label: id(4),
+				location: loc(),
+			},
+			b'T' => Statement::Label {
+				label: id(4),
+				location: loc(),
+			},
+			b'P' => Statement::Poison(Poison::Poisoned),
+			b'I' =>
+			{
+				assert_eq!(self.s[self.i], b'(');
+				self.i += 1;
+				let then_branch = Box::new(self.stmt());
+				let else_branch = if self.s[self.i] == b';'
+				{
+					self.i += 1;
+					Some(Else {
+						branch: Box::new(self.stmt()),
+						location_of_else: loc(),
+					})
+				}
+				else
+				{
+					None
+				};
+				assert_eq!(self.s[self.i], b')');
+				self.i += 1;
+				Statement::If {
+					condition: Comparison {
+						op: ComparisonOp::Equals,
+						left: Expression::BooleanLiteral {
+							value: true,
+							location: loc(),
+						},
+						right: Expression::BooleanLiteral {
+							value: true,
+							location: loc(),
+						},
+						location: loc(),
+						location_of_op: loc(),
+					},
+					then_branch,
+					else_branch,
+					location: loc(),
+				}
+			}
+			b'B' =>
+			{
+				assert_eq!(self.s[self.i], b'(');
+				self.i += 1;
+				let mut statements = Vec::new();
+				while self.s[self.i] != b')'
+				{
+					statements.push(self.stmt());
+					if self.s[self.i] == b','
+					{
+						self.i += 1;
+					}
+				}
+				self.i += 1;
+				Statement::Block(Block {
+					statements,
+					location: loc(),
+				})
+			}
+			other => panic!("unknown statement {}", other as char),
+		}
+	}
+}
+
+fn show_stmt(s: &Statement) -> String
+{
+	match s
+	{
+		Statement::Declaration { .. } => "D".to_string(),
+		Statement::Assignment { .. } => "A".to_string(),
+		Statement::MethodCall { .. } => "M".to_string(),
+		Statement::Loop { .. } => "L".to_string(),
+		Statement::Goto { .. } => "G".to_string(),
+		Statement::Label { .. } => "T".to_string(),
+		Statement::Poison(Poison::Poisoned) => "P".to_string(),
+		Statement::Poison(Poison::Error(e)) => format!("E{}", e.code()),
+		Statement::If {
+			then_branch,
+			else_branch,
+			..
+		} => match else_branch
+		{
+			Some(e) => format!("I({};{})", show_stmt(then_branch), show_stmt(&e.branch)),
+			None => format!("I({})", show_stmt(then_branch)),
+		},
+		Statement::Block(b) =>
+		{
+			let parts: Vec<String> = b.statements.iter().map(show_stmt).collect();
+			format!("B({})", parts.join(","))
+		}
+	}
+}
+
+pub fn run_syntax()
+{
+	let stdin = std::io::stdin();
+	for line in stdin.lock().lines()
+	{
+		let line = line.unwrap();
+		let mut statements = Vec::new();
+		for part in line.split(' ').filter(|x| !x.is_empty())
+		{
+			statements.push(SP { s: part.as_bytes(), i: 0 }.stmt());
+		}
+		let decl = Declaration::Function {
+			name: id(10),
+			parameters: Vec::new(),
+			body: Ok(FunctionBody {
+				statements,
+				return_value: None,
+				return_value_identifier: id(11),
+			}),
+			return_type: Ok(penne::alpha::value_type::ValueType::Void),
+			flags: EnumSet::new(),
+			location_of_declaration: loc(),
+			location_of_return_type: loc(),
+		};
+		let out = penne::alpha::analyzer::verif_syntax_analyze(decl);
+		match out
+		{
+			Declaration::Function { body: Ok(body), .. } =>
+			{
+				let parts: Vec<String> = body.statements.iter().map(show_stmt).collect();
+				println!("{}", parts.join(" "));
+			}
+			_ => println!("?"),
+		}
+	}
+}
